@@ -4,6 +4,7 @@
 package core
 
 import (
+	"sync"
 	"fmt"
 	"go/ast"
 	"go/build"
@@ -21,6 +22,10 @@ import (
 
 // Prog is the loaded, type-checked and SSA-lowered repository.
 type Prog struct {
+	// Memo caches, per lowered program, the result of evaluating a whole rule set on behalf of another property
+	// (rules.importObligations): the evaluation depends on the program only
+	Memo sync.Map
+
 	Dir     string
 	Module  string
 	Fset    *token.FileSet
